@@ -38,9 +38,18 @@ META = {
         "parent-closed (erase_walk) without any acyclicity assumption (an object has one parent, a detached root none, so "
         "the walk cannot reach a cycle), and dropping the subtree preserves Inv (inv_dropTree; dropOne_uses: exactly the "
         "Use objects of the erased operations leave the use lists). The property's clauses are read off Inv "
-        "(ops/blocks/regions_exactly_once, uses_exact, block_uses_exact, indices_match). Theorems are in "
+        "(ops/blocks/regions_exactly_once, uses_exact, block_uses_exact, indices_match). Collection arguments: the "
+        "hand-written loops of Region.add_block / Region.insert_block_before, which consume iter(blocks) once with next() "
+        "and repair the outer link at StopIteration (XdslModel/DLLStream.lean: linkChain, appendStream, insertStreamBefore), "
+        "agree on every node and container with the one-block-at-a-time model functions and represent the list with the "
+        "yielded blocks spliced in, in yield order (dll_insertStreamBefore, dll_appendStream; on consistent IR for every "
+        "successful call: insert_block_before_single_pass, add_block_single_pass); attaching without linking — what a second "
+        "pass over an exhausted one-shot iterator leaves — is not well-formed (attach_without_link_counterexample). Theorems are in "
         "XdslProofs/C01.lean. Tie to /repo: every history (constructor calls from the empty universe + 1–60 mutation "
-        "calls, ~80 % satisfying their preconditions) is executed on real xDSL objects; after every successful call an "
+        "calls, ~80 % satisfying their preconditions; every collection-typed parameter of every call — 27 parameters of 21 "
+        "of the 58 call kinds — passed as a drawn instance of its DECLARED type: Iterable[X] as list, tuple, custom Sequence, "
+        "re-iterable non-sequence, generator, iter(list) or map object, Sequence[X] as list, tuple or custom Sequence, "
+        "`X | Iterable[X]` also as the object itself; the Lean model receives the element list) is executed on real xDSL objects; after every successful call an "
         "independent whole-tree invariant walk is the oracle, and the full public observation (ops forward/backward, "
         "blocks, parents, operands, successors, use lists as sorted multisets, index fields, and the exception class of "
         "raising calls) is compared line by line with the Lean model IRStore replaying the same history."
@@ -52,7 +61,9 @@ META = {
         "Operation.detach_region' applied (the check finds the defect on the unfixed tree by itself). Trusted: Lean kernel; "
         "the hand-written model XdslModel/{DLL,IRStore,IRApi}.lean (tied by correspondence only: enumerated depth ≤ 2 on a "
         "small seed + random histories); Python object identity. Not modelled: name hints, types, attributes, locations, "
-        "listeners, error messages. Excluded as outside the API contract (never generated, stated here so that nothing is "
+        "listeners, error messages. Argument forms stay inside the declared parameter types (a generator is never passed "
+        "where Sequence[X] is declared; Rewriter/PatternRewriter.inline_block gets `()` for 'no replacement values', its default). "
+        "Excluded as outside the API contract (never generated, stated here so that nothing is "
         "claimed about them): calls on objects that were erased; Operation.drop_all_references on an attached operation "
         "(docstring: 'called prior to deleting an operation'); creating parent cycles through the unguarded "
         "Region.move_blocks/move_blocks_before/Rewriter.inline_region/Operation.add_region; a builtin.module with operands or "
@@ -67,11 +78,14 @@ META = {
     ),
     "rule": (
         "case = one history (JSON list of calls over integer ids; ids of created objects are part of the call). "
-        "Enumeration: every call of 24 primitive kinds with every choice of live arguments (indices −3..2) on a fixed "
-        "3-block/5-op/2-region seed, depth 1 completely, depth 2 completely (thorough, while time allows) or sampled (quick). "
+        "Enumeration: every call of 28 primitive kinds with every choice of live arguments (indices −3..2; block/op "
+        "collections = every list of ≤ 2 distinct live objects, each in every argument form its declared type admits) on a fixed "
+        "3-block/5-op/2-region seed, depth 1 completely, depth 2 completely (thorough, while time allows) or sampled (quick); "
+        "the seed prefix is judged once and then replayed unobserved. "
         "Random: generated seed IR (nested regions ≤ depth 2, 1–4 blocks per region with successors, values used across "
         "blocks and regions, spare detached parts) followed by 1–60 calls drawn from 58 kinds, 80 % valid-by-construction, "
-        "20 % arbitrary live arguments. Non-trivial = at least one successful call after the seed prefix changed an "
+        "20 % arbitrary live arguments; argument forms drawn per collection parameter (all lists with probability 0.35, "
+        "seed calls 0.6). Non-trivial = at least one successful call after the seed prefix changed an "
         "observation (random) / the enumerated call succeeded (enumeration); distinct = distinct call list."
     ),
     "trusted_base": [
@@ -82,6 +96,11 @@ META = {
 }
 
 E_BASE = 1_000_000  # id of the ErasedSSAValue standing for value k is E_BASE + k
+
+
+class BadRef(Exception):
+    """A call names an object that does not exist (any more) or re-uses an id: the call is not
+    executed at all (only happens in shrunk histories)."""
 
 # ---------------------------------------------------------------------------------------------
 # Signatures of the calls (argument kinds).  O/B/R/V: existing op/block/region/value id;
@@ -200,10 +219,120 @@ CALL_SITE = {
 }
 assert set(CALL_SITE) == set(SIG)
 
+# ---------------------------------------------------------------------------------------------
+# Argument forms.  Every parameter that takes a collection, with its DECLARED type in xdsl
+# (ir/core.py, rewriter.py, builder.py, pattern_rewriter.py):  "I" = Iterable[X],
+# "Q" = Sequence[X], a trailing "1" = `X | Iterable[X]` / `X | Sequence[X]` (the object itself
+# may be passed).  Key = position in SIG[name].  A call may end with one extra element, the list
+# of forms of these parameters (in position order); without it every collection is a `list`.
+# The form is a Python-level matter only: the Lean model receives the element list.
+#   list/tuple  the builtin sequences          seq   a minimal collections.abc.Sequence subclass
+#   gen         a generator expression         iter  iter(list)        map  a map object
+#   view        re-iterable Iterable without __len__/__getitem__       single  the object itself
+# gen/iter/map are ONE-SHOT: a second pass over them yields nothing.
+# ---------------------------------------------------------------------------------------------
+COLL: dict[str, dict[int, str]] = {
+    "new_op": {2: "Q", 3: "Q", 4: "Q", 5: "Q"},  # Operation.create(result_types, operands, successors, regions)
+    "new_block": {1: "I", 2: "I"},               # Block(ops: Iterable, arg_types: Iterable)
+    "new_region": {1: "I1"},                     # Region(blocks: Block | Iterable[Block])
+    "add_ops": {1: "I"}, "insert_ops_before": {1: "Q"}, "insert_ops_after": {1: "Q"},
+    "split_before": {3: "I"},                    # arg_types: Iterable[Attribute]
+    "add_block": {1: "I1"}, "insert_block_before": {1: "I1"}, "insert_block_after": {1: "I1"}, "insert_block": {1: "I1"},
+    "set_operands": {1: "Q"}, "set_successors": {1: "Q"},
+    "rw_replace_op": {1: "Q1", 2: "Q"}, "rw_inline_block": {2: "Q"}, "rw_insert_block": {0: "I1"}, "rw_insert_op": {0: "Q1"},
+    "pr_insert": {1: "Q1"}, "pr_replace": {2: "Q1", 3: "Q"}, "pr_inline_block": {3: "Q"},
+    "pr_create_block": {3: "I"},                 # arg_types: Iterable[Attribute]
+}
+_COLL_CODES = ("OL", "BL", "RL", "VL", "NVL", "BS", "OS", "VNL")
+for _n, _sig in SIG.items():  # no collection parameter of any modelled call is left without a declared type
+    assert {i for i, c in enumerate(_sig) if c in _COLL_CODES} == set(COLL.get(_n, {})), _n
+    assert all((_sig[i] in ("BS", "OS")) == (d.endswith("1") and _n != "new_region") for i, d in COLL.get(_n, {}).items()), _n
+FORMS = {"I": ("list", "tuple", "seq", "view", "gen", "iter", "map"), "Q": ("list", "tuple", "seq")}
+ONE_SHOT = ("gen", "iter", "map")
 
-class BadRef(Exception):
-    """A call names an object that does not exist (any more) or re-uses an id: the call is not
-    executed at all (only happens in shrunk histories)."""
+
+def _seq_class() -> Any:
+    import collections.abc
+
+    class Seq(collections.abc.Sequence):  # what the declared type `Sequence[X]` promises, nothing more
+        def __init__(self, xs: Any) -> None:
+            self._xs = tuple(xs)
+
+        def __getitem__(self, i: Any) -> Any:
+            return self._xs[i]
+
+        def __len__(self) -> int:
+            return len(self._xs)
+
+    return Seq
+
+
+class View:  # what `Iterable[X]` promises: __iter__ (here: re-iterable), no len(), no indexing
+    def __init__(self, xs: Any) -> None:
+        self._xs = tuple(xs)
+
+    def __iter__(self) -> Any:
+        return iter(self._xs)
+
+
+_SEQ: Any = None
+
+
+def wrap(form: str, xs: list[Any]) -> Any:
+    """the elements `xs` as an argument of the given form"""
+    global _SEQ
+    if form == "list":
+        return list(xs)
+    if form == "tuple":
+        return tuple(xs)
+    if form == "seq":
+        _SEQ = _SEQ or _seq_class()
+        return _SEQ(xs)
+    if form == "view":
+        return View(xs)
+    if form == "gen":
+        return (x for x in list(xs))
+    if form == "iter":
+        return iter(list(xs))
+    if form == "map":
+        return map(lambda x: x, list(xs))
+    raise BadRef(f"form {form}")
+
+
+def split_forms(call: list[Any]) -> tuple[list[Any], list[str] | None]:
+    """(call without the trailing form list, forms or None); raises BadRef when malformed"""
+    sig = SIG.get(call[0]) if call and isinstance(call[0], str) else None
+    if sig is None:
+        raise BadRef("unknown call")
+    if len(call) == len(sig) + 1:
+        return call, None
+    coll = COLL.get(call[0], {})
+    forms = call[-1]
+    if len(call) != len(sig) + 2 or not coll or not isinstance(forms, list) or len(forms) != len(coll):
+        raise BadRef("arity")
+    for pos, f in zip(sorted(coll), forms):
+        legal = FORMS[coll[pos][0]] + (("single",) if call[0] == "new_region" else ())
+        if f not in legal:
+            raise BadRef(f"form {f} is not an instance of the declared type of parameter {pos} of {call[0]}")
+    return call[:-1], list(forms)
+
+
+def forms_of(call: list[Any]) -> list[str]:
+    """non-list forms the call passes (the `single` flag of BS/OS parameters included)"""
+    try:
+        plain, forms = split_forms(call)
+    except BadRef:
+        return []
+    out = [f for f in (forms or []) if f != "list"]
+    out += ["single" for c, a in zip(SIG[plain[0]], plain[1:]) if c in ("BS", "OS") and isinstance(a, list) and len(a) == 2 and a[1]]
+    return out
+
+
+def strip_forms(call: list[Any]) -> list[Any]:
+    try:
+        return split_forms(call)[0]
+    except BadRef:
+        return call
 
 
 # ---------------------------------------------------------------------------------------------
@@ -301,6 +430,12 @@ class Exec:
     def __init__(self, W: World) -> None:
         self.W = W
         self.raised_while_formatting = 0
+        self._tform = "list"  # form of the `arg_types` / `result_types` collection of the current call
+
+    def _types(self, n: int) -> Any:
+        from xdsl.dialects.builtin import i32
+
+        return wrap(self._tform, [i32] * n)
 
     # -- decoding (everything is decoded before anything is mutated) -----------------------
     def _get(self, kind: str, k: Any) -> Any:
@@ -410,12 +545,25 @@ class Exec:
     # -- run ------------------------------------------------------------------------------
     def run(self, call: list[Any]) -> str:
         """returns 'ok' | 'raise <Exc>' | 'badref'"""
-        name = call[0]
-        sig = SIG.get(name)
-        if sig is None or len(call) != len(sig) + 1:
-            return "badref"
         try:
+            call, forms = split_forms(call)
+            name = call[0]
+            sig = SIG[name]
             args = [self.dec(c, a) for c, a in zip(sig, call[1:])]
+            self._tform = "list"
+            if forms is not None:
+                # every collection goes in as the drawn instance of its declared type (decoding is
+                # complete at this point: nothing has been mutated or consumed yet)
+                for pos, f in zip(sorted(COLL[name]), forms):
+                    if sig[pos] == "NVL":
+                        self._tform = f  # the list of types is built by the c_ method: see `_types`
+                    elif isinstance(args[pos], list):  # (not: None, or the single object of BS/OS)
+                        if f == "single":
+                            if len(args[pos]) != 1:
+                                raise BadRef("single needs one object")
+                            args[pos] = args[pos][0]
+                        else:
+                            args[pos] = wrap(f, args[pos])
         except (BadRef, TypeError, IndexError, KeyError):
             return "badref"
         try:
@@ -443,7 +591,7 @@ class Exec:
         from xdsl.dialects.test import TestOp, TestTermOp
 
         cls = {"op": TestOp, "term": TestTermOp, "module": ModuleOp}[kind]
-        op = cls.create(operands=operands, result_types=[i32] * len(res), successors=succs, regions=regions)
+        op = cls.create(operands=operands, result_types=self._types(len(res)), successors=succs, regions=regions)
         self.W.reg("o", k, op)
         for vid, r in zip(res, op.results):
             self.W.reg("v", vid, r)
@@ -452,7 +600,7 @@ class Exec:
         from xdsl.dialects.builtin import i32
         from xdsl.ir import Block
 
-        self._reg_block(k, Block(ops, arg_types=[i32] * len(argids)), argids)
+        self._reg_block(k, Block(ops, arg_types=self._types(len(argids))), argids)
 
     def c_new_region(self, k, blocks):
         from xdsl.ir import Region
@@ -476,7 +624,7 @@ class Exec:
     def c_split_before(self, b, o, nb, argids):
         from xdsl.dialects.builtin import i32
 
-        self._reg_block(nb, b.split_before(o, arg_types=[i32] * len(argids)), argids)
+        self._reg_block(nb, b.split_before(o, arg_types=self._types(len(argids))), argids)
 
     def c_insert_arg(self, b, idx, nv):
         from xdsl.dialects.builtin import i32
@@ -586,7 +734,7 @@ class Exec:
         from xdsl.rewriter import Rewriter
 
         dying = self._inline_dying(src, ip)
-        Rewriter.inline_block(src, self._ip(ip), tuple(vals))
+        Rewriter.inline_block(src, self._ip(ip), vals if len(vals) else ())  # "no replacement values" is `()`
         self._kill(dying)
 
     def c_rw_insert_block(self, bs, bip):
@@ -655,7 +803,7 @@ class Exec:
 
     def c_pr_inline_block(self, cur, src, ip, vals):
         dying = self._inline_dying(src, ip)
-        self._pr(cur).inline_block(src, self._ip(ip), tuple(vals))
+        self._pr(cur).inline_block(src, self._ip(ip), vals if len(vals) else ())
         self._kill(dying)
 
     def c_pr_move_region_contents_to_new_regions(self, cur, r, nr):
@@ -667,7 +815,7 @@ class Exec:
     def c_pr_create_block(self, cur, bip, nb, argids):
         from xdsl.dialects.builtin import i32
 
-        self._reg_block(nb, self._pr(cur).create_block(self._bip(bip), [i32] * len(argids)), argids)
+        self._reg_block(nb, self._pr(cur).create_block(self._bip(bip), self._types(len(argids))), argids)
 
 
 # ---------------------------------------------------------------------------------------------
@@ -847,7 +995,10 @@ class Runner:
     mutates before it raises in several places) the history is abandoned there: the quantifier
     skips raising calls, so nothing is judged on a state only a raising call produced."""
 
-    def __init__(self, keep_obs: bool = False) -> None:
+    def __init__(self, keep_obs: bool = False, quiet_prefix: int = 0) -> None:
+        # the first `quiet_prefix` calls are a prefix that has been judged before (the fixed seed of the
+        # enumeration): they are executed, not observed (their observation is recorded as None)
+        self.quiet_prefix = quiet_prefix
         self.W = World()
         self.ex = Exec(self.W)
         self.prev: list[str] = []
@@ -870,6 +1021,13 @@ class Runner:
         self.statuses.append(st)
         if st == "badref":
             self.obs.append(None)
+            return st
+        if st == "ok" and len(self.calls) <= self.quiet_prefix:
+            if self.keep_obs:
+                self.obs.append(None)
+            if len(self.calls) == self.quiet_prefix:
+                self.prev = snapshot(self.W)
+            self.changed += 1
             return st
         complaints: list[tuple[str, str]] = []
         try:
@@ -895,8 +1053,8 @@ class Runner:
         return st
 
 
-def run_history(calls: list[list[Any]], keep_obs: bool = False) -> Runner:
-    R = Runner(keep_obs)
+def run_history(calls: list[list[Any]], keep_obs: bool = False, quiet_prefix: int = 0) -> Runner:
+    R = Runner(keep_obs, quiet_prefix)
     for c in calls:
         if R.stopped:
             break
@@ -914,10 +1072,18 @@ FAMILY = {"op-list": "op-container", "op-parent": "op-container", "block-list": 
           "arg-index": "index-field", "traversal": "traversal"}
 
 
-def signature_of(fail: dict[str, Any]) -> str:
-    """stable class of the defect: which part of the invariant breaks (+ whether a negative index was passed)"""
+def base_signature(fail: dict[str, Any]) -> str:
     kinds = sorted({FAMILY[k] for k, _ in fail["complaints"]})
     return "+".join(kinds) + (" [negative index]" if has_negative_index(fail["call"]) else "")
+
+
+def signature_of(fail: dict[str, Any]) -> str:
+    """stable class of the defect: which part of the invariant breaks (+ whether a negative index was passed,
+    + the class of argument form the failing call passes; shrinking turns every form that is not needed
+    for the failure back into a list first)"""
+    forms = forms_of(fail["call"])
+    form = " [one-shot iterable]" if any(f in ONE_SHOT for f in forms) else (" [non-list collection]" if forms else "")
+    return base_signature(fail) + form
 
 
 # ---------------------------------------------------------------------------------------------
@@ -1038,6 +1204,19 @@ class Gen:
     def list_or_single(self, objs: list[Any]) -> list[Any]:
         single = len(objs) == 1 and self.rng.random() < 0.6
         return [self.kids(objs), single]
+
+    def with_forms(self, call: list[Any], p_plain: float = 0.35) -> list[Any]:
+        """draw, per collection parameter of the call, one of the instances of its declared type"""
+        coll = COLL.get(call[0])
+        if not coll or self.rng.random() < p_plain:
+            return call
+        forms = []
+        for pos in sorted(coll):
+            f = self.rng.choice(FORMS[coll[pos][0]])
+            if call[0] == "new_region" and len(call[1 + pos]) == 1 and self.rng.random() < 0.3:
+                f = "single"
+            forms.append(f)
+        return call if all(f == "list" for f in forms) else [*call, forms]
 
     # -- valid calls (preconditions satisfied) ----------------------------------------------
     def v_new_op(self):
@@ -1447,7 +1626,7 @@ class Gen:
             valid = self.rng.random() < p_valid
             call = getattr(self, "v_" + name)() if valid else self.arbitrary(name)
             if call is not None and contract_ok(self.R.ex, call):
-                return call, valid
+                return self.with_forms(call), valid
         return None
 
     # -- starting IR ---------------------------------------------------------------------------
@@ -1570,7 +1749,7 @@ class Correspondence:
             if R.fail is not None and i >= R.fail["step"]:
                 break  # the model is of consistent IR only
             self.lines.append(encode(c))
-            self.expect.append("ok " + "; ".join(R.obs[i]) if st == "ok" else st)
+            self.expect.append(st if st != "ok" else None if R.obs[i] is None else "ok " + "; ".join(R.obs[i]))
             self.where.append((h, i))
             if R.abandoned == i:
                 break
@@ -1580,7 +1759,9 @@ class Correspondence:
             return
         got = ctx.model("ir_store", self.lines)
         ctx.count("correspondence.lines", len(self.lines))
-        i = core.diff_streams(self.expect, got)
+        # (None = a step of a prefix judged before: only its status is compared)
+        i = core.diff_streams([g if e is None and g.startswith("ok") else e for e, g in zip(self.expect, got)]
+                              + self.expect[len(got):], got)
         if i is not None:
             h, step = self.where[i]
             calls = self.histories[h][: step + 1]
@@ -1602,7 +1783,7 @@ class Correspondence:
             if j is None:  # shrinking lost it (should not happen): report the unshrunk case
                 small, C.expect, m, j = calls, self.expect[i - step - 1: i + 1], got[i - step - 1: i + 1], step + 1
             ctx.mismatch("correspondence:C01/ir_store", {"calls": small, "line": C.lines[j] if j < len(C.lines) else None},
-                         C.expect[j].split("; ") if j < len(C.expect) else None, m[j].split("; ") if j < len(m) else None,
+                         (C.expect[j] or "ok").split("; ") if j < len(C.expect) else None, m[j].split("; ") if j < len(m) else None,
                          "real xDSL objects and the Lean model IRStore disagree on the observation after this call")
         self.lines, self.expect, self.where, self.histories = [], [], [], []
 
@@ -1612,22 +1793,48 @@ class Correspondence:
 # ---------------------------------------------------------------------------------------------
 def shrink_failure(calls: list[list[Any]], fail: dict[str, Any]) -> tuple[list[list[Any]], dict[str, Any]]:
     """smallest sub-history on which the same call kind trips the same kind of complaint"""
-    name, sig = fail["call"][0], signature_of(fail)
+    name, sig = fail["call"][0], base_signature(fail)
 
     def still(c: list[list[Any]]) -> bool:
         f = run_history(c).fail
-        return f is not None and f["call"][0] == name and signature_of(f) == sig
+        return f is not None and f["call"][0] == name and base_signature(f) == sig
+
+    def plain(c: list[Any]) -> list[Any]:
+        """the call with every collection passed as a list (single objects as one-element lists)"""
+        c = strip_forms(c)
+        return [c[0], *[[a[0], False] if code in ("BS", "OS") and isinstance(a, list) and len(a) == 2 else a
+                        for code, a in zip(SIG.get(c[0], ()), c[1:])]]
 
     calls = calls[: fail["step"] + 1]
+    # argument forms first: all at once, then call by call (a form survives only if the failure needs it)
+    cand = [plain(c) for c in calls]
+    if cand != calls and still(cand):
+        calls = cand
     small = core.shrink_list(calls, still, max_steps=1500)
+    def one_by_one(small: list[list[Any]]) -> list[list[Any]]:
+        i = 0
+        while i < len(small) and len(small) > 1:
+            cand = small[:i] + small[i + 1:]
+            if still(cand):
+                small = cand
+            else:
+                i += 1
+        return small
+
     # one-by-one pass (delta debugging in chunks can leave single removable calls behind)
-    i = 0
-    while i < len(small) and len(small) > 1:
-        cand = small[:i] + small[i + 1:]
-        if still(cand):
-            small = cand
-        else:
-            i += 1
+    small = one_by_one(small)
+    for ci in range(len(small)):
+        if plain(small[ci]) != small[ci]:
+            cand = small[:ci] + [plain(small[ci])] + small[ci + 1:]
+            if still(cand):
+                small = cand
+                continue
+        for fi in range(len(small[ci][-1]) if strip_forms(small[ci]) != small[ci] else 0):
+            if small[ci][-1][fi] != "list":
+                cand = [list(c) for c in small]
+                cand[ci][-1] = [*small[ci][-1][:fi], "list", *small[ci][-1][fi + 1:]]
+                if still(cand):
+                    small = cand
     # simplify list arguments of the remaining calls
     for ci in range(len(small)):
         for ai in range(1, len(small[ci])):
@@ -1638,6 +1845,7 @@ def shrink_failure(calls: list[list[Any]], fail: dict[str, Any]) -> tuple[list[l
                     cand[ci][ai] = [x for jj, x in enumerate(small[ci][ai]) if jj != j]
                     if still(cand):
                         small = cand
+    small = one_by_one(small)  # (objects that were only mentioned in the list arguments dropped above)
     f = run_history(small).fail
     assert f is not None
     return small, f
@@ -1665,7 +1873,10 @@ def random_history(ctx: core.Ctx, max_calls: int = 60, p_valid: float = 0.8) -> 
 
     def emit(call: list[Any]) -> None:
         if not R.stopped:
+            call = G.with_forms(call, p_plain=0.6)
             R.step(call)
+            if call[0] in COLL:
+                ctx.count("forms." + ("+".join(sorted(set(forms_of(call)))) or "list"))
             assert R.statuses[-1] == "ok" or R.stopped, ("seed call failed", call, R.statuses[-1])
 
     G.seed(emit)
@@ -1680,6 +1891,8 @@ def random_history(ctx: core.Ctx, max_calls: int = 60, p_valid: float = 0.8) -> 
         st = R.step(call)
         ctx.count(f"call.{call[0]}.{'ok' if st == 'ok' else 'raise'}")
         ctx.count("calls.valid-mode" if valid else "calls.arbitrary-mode")
+        if call[0] in COLL:
+            ctx.count("forms." + ("+".join(sorted(set(forms_of(call)))) or "list"))
         if valid and st != "ok":
             ctx.count("calls.valid-mode-but-raised")
             ctx.extra.setdefault("valid_mode_raises", Counter())[f"{call[0]}: {st}"] += 1
@@ -1711,13 +1924,14 @@ SMALL_SEED: list[list[Any]] = [
     ["new_op", 4, "op", [4], [3], [], []],           # detached spare op using v3
     ["new_block", 2, [5], []], ["new_region", 1, []],  # detached spare block, empty region
 ]
-ENUM_KINDS = ["insert_op_before", "insert_op_after", "add_op", "detach_op", "erase_op", "split_before", "insert_arg",
-              "erase_arg", "add_block", "insert_block_before", "insert_block", "detach_block", "detach_block_idx",
+ENUM_KINDS = ["insert_op_before", "insert_op_after", "add_op", "add_ops", "insert_ops_before", "insert_ops_after",
+              "detach_op", "erase_op", "split_before", "insert_arg",
+              "erase_arg", "add_block", "insert_block_before", "insert_block_after", "insert_block", "detach_block", "detach_block_idx",
               "move_blocks", "move_blocks_before", "op_detach", "op_erase", "set_operand", "set_successor",
               "add_region", "detach_region", "detach_region_idx", "replace_all_uses_with", "rw_replace_value_with_new_type"]
 
 
-def enumerate_calls(R: Runner, fresh: dict[str, int]) -> list[list[Any]]:
+def enumerate_calls(R: Runner, fresh: dict[str, int], with_forms: bool = True) -> list[list[Any]]:
     W = R.W
     pools = {"O": W.live_ids("o"), "B": W.live_ids("b"), "R": W.live_ids("r"), "V": W.live_ids("v")}
     out: list[list[Any]] = []
@@ -1734,33 +1948,61 @@ def enumerate_calls(R: Runner, fresh: dict[str, int]) -> list[list[Any]]:
                 doms.append([fresh[c[1].lower()]])
             elif c == "NVL":
                 doms.append([[fresh["v"] + 1]])
-            elif c == "BS":
-                doms.append([[[b], True] for b in pools["B"]] + [[[], False]])
+            elif c == "BS":  # the block itself; every list of ≤ 2 distinct live blocks
+                bl = pools["B"]
+                doms.append([[[b], True] for b in bl] + [[[], False]] + [[[b], False] for b in bl]
+                            + [[[a, b], False] for a in bl for b in bl if a != b])
+            elif c == "OL":  # every list of ≤ 2 distinct live ops
+                ol = pools["O"]
+                doms.append([[]] + [[o] for o in ol] + [[a, b] for a in ol for b in ol if a != b])
             else:
                 raise AssertionError(c)
+        coll = COLL.get(name, {})
         for combo in itertools.product(*doms):
             call = [name, *combo]
-            if contract_ok(R.ex, call):
-                out.append(call)
+            if not contract_ok(R.ex, call):
+                continue
+            out.append(call)
+            if not with_forms:
+                continue
+            # the same call with every collection in every other instance of its declared type
+            open_pos = [p for p in sorted(coll) if not (SIG[name][p] in ("BS", "OS") and combo[p][1])]
+            if len(open_pos) != len(coll):
+                continue  # (the single object is passed: no collection)
+            for forms in itertools.product(*[FORMS[coll[p][0]] for p in open_pos]):
+                if any(f != "list" for f in forms):
+                    out.append([*call, list(forms)])
     return out
 
 
-def run_enumeration(ctx: core.Ctx, corr: Correspondence, depth2_budget_s: float, depth2_sample: int | None) -> None:
-    base = run_history(SMALL_SEED)
+def run_enumeration(ctx: core.Ctx, corr: Correspondence, depth2_budget_s: float, depth2_sample: int | None,
+                    failed_sigs: set[tuple[str, str]]) -> None:
+    def judge(R: Runner) -> None:
+        if R.fail is not None:
+            key = (R.fail["call"][0], signature_of(R.fail))
+            ctx.count("enumeration.failing")
+            if key not in failed_sigs:  # shrink and report once per (call kind, complaint class)
+                failed_sigs.add(key)
+                report(ctx, R.calls, R.fail)
+
+    base = run_history(SMALL_SEED, keep_obs=True)
     assert base.fail is None and all(s == "ok" for s in base.statuses), base.statuses
+    corr.add(base)
+    n0 = len(SMALL_SEED)  # (judged just now; the histories below run it as a quiet prefix)
     fresh = {"o": 50, "b": 50, "r": 50, "v": 50}
     firsts = enumerate_calls(base, fresh)
     ctx.count("enumeration.depth1", len(firsts))
+    ctx.count("enumeration.depth1-non-list-form", sum(1 for c in firsts if strip_forms(c) != c))
     survivors: list[list[Any]] = []
     for c in firsts:
-        R = run_history(SMALL_SEED + [c], keep_obs=True)
+        R = run_history(SMALL_SEED + [c], keep_obs=True, quiet_prefix=n0)
         corr.add(R)
         ctx.ev()
-        if R.fail is not None:
-            report(ctx, R.calls, R.fail)
-        elif R.abandoned is None and R.statuses[-1] == "ok":
-            survivors.append(c)
+        judge(R)
+        if R.fail is None and R.abandoned is None and R.statuses[-1] == "ok":
             ctx.nt(hash(json.dumps(c)))
+            if strip_forms(c) == c:  # (the state after the call does not depend on the form: judged above)
+                survivors.append(c)
     fresh2 = {k: v + 10 for k, v in fresh.items()}
     t_end = ctx.t0 + ctx.budget_s if depth2_budget_s <= 0 else min(ctx.t0 + ctx.budget_s, __import__("time").time() + depth2_budget_s)
     import time
@@ -1773,21 +2015,20 @@ def run_enumeration(ctx: core.Ctx, corr: Correspondence, depth2_budget_s: float,
         if time.time() > t_end:
             complete = False
             break
-        R1 = run_history(SMALL_SEED + [c1])
+        R1 = run_history(SMALL_SEED + [c1], quiet_prefix=n0 + 1)
         seconds = enumerate_calls(R1, fresh2)
         if depth2_sample is not None and len(seconds) > depth2_sample:
             seconds = ctx.rng.sample(seconds, depth2_sample)
             complete = False
         for c2 in seconds:
-            R = run_history(SMALL_SEED + [c1, c2], keep_obs=True)
+            R = run_history(SMALL_SEED + [c1, c2], keep_obs=True, quiet_prefix=n0 + 1)
             corr.add(R)
             ctx.ev()
             done += 1
             if len(corr.lines) > 40000:
                 corr.check(ctx)
-            if R.fail is not None:
-                report(ctx, R.calls, R.fail)
-            elif R.statuses[-1] == "ok" and R.abandoned is None:
+            judge(R)
+            if R.fail is None and R.statuses[-1] == "ok" and R.abandoned is None:
                 ctx.nt(hash(json.dumps([c1, c2])))
     ctx.count("enumeration.depth2", done)
     ctx.extra["enumeration"] = {"seed": SMALL_SEED, "kinds": ENUM_KINDS, "depth1_calls": len(firsts),
@@ -1805,12 +2046,13 @@ def run(ctx: core.Ctx) -> None:
         ctx.lean()
     quick = ctx.tier == "quick"
     corr = Correspondence()
-    run_enumeration(ctx, corr, depth2_budget_s=8 if quick else 240, depth2_sample=12 if quick else None)
+    failed_sigs: set[tuple[str, str]] = set()
+    run_enumeration(ctx, corr, depth2_budget_s=8 if quick else 240, depth2_sample=12 if quick else None,
+                    failed_sigs=failed_sigs)
     corr.check(ctx)
     t_random = (ctx.t0 + ctx.budget_s) - time.time()
     t_end = time.time() + max(5.0, t_random * (0.9 if quick else 0.95))
     max_hist = 300 if quick else 40000
-    failed_sigs: set[tuple[str, str]] = set()
     nh = 0
     while nh < max_hist and time.time() < t_end:
         R = random_history(ctx)
